@@ -349,7 +349,7 @@ def run_cases(mod, cases, procs=None, order=None, contiguous=False):
 
         ctx = mp.get_context("fork")
         if contiguous:
-            chunk = max(1, -(-len(jobs) // (procs * 2)))
+            chunk = max(1, -(-len(jobs) // (procs * 6)))  # contiguous blocks, small enough that a run of costly cases does not end up in one worker
         else:
             chunk = 1 if len(jobs) <= 4000 else max(1, min(64, len(jobs) // (procs * 32)))
         res = []
